@@ -319,7 +319,11 @@ def main(argv=None):
                 errors.append("bounded stage crashed: %s" % str(val).splitlines()[0])
             else:
                 bounded = val
+                seen_names = set()
                 for fail in val.get('failures', []):
+                    if fail['name'] in seen_names:
+                        continue
+                    seen_names.add(fail['name'])
                     kfid = fail.get('known_finding')
                     if kfid and any(k['id'] == kfid for k in kfs):
                         line = "KNOWN-FINDING: property=%s %s: %s" % (pid, kfid, [k for k in kfs if k['id'] == kfid][0]['what'])
